@@ -33,6 +33,10 @@ var vC18AssignForms = []vStForm{
 	{pre: "射击:弓箭:", typ: "set", name: "射击:弓箭"},
 	{pre: "属性*:", typ: "set.x0", name: "属性"},
 	{pre: "属性*", mid: ":", typ: "set.x1", name: "属性", hasExtra: true},
+	{pre: "属性*", mid: "=", typ: "set.x1", name: "属性", hasExtra: true},
+	{pre: "属性 * ", mid: " = ", typ: "set.x1", name: "属性", hasExtra: true},
+	{pre: "属性*=", typ: "set.x0", name: "属性"},
+	{pre: "属性 * : ", typ: "set.x0", name: "属性"},
 	{pre: "知识(", post: ")", typ: "set", name: "知识"},
 	{pre: "&手枪=", typ: "set", name: "手枪", computed: true},
 	{pre: "&射击:弓箭 = ", typ: "set", name: "射击:弓箭", computed: true},
@@ -201,7 +205,7 @@ func vC18RunN(forms []vStForm, minEdits, maxEdits int, rotate bool) {
 	}
 }
 
-//vh:prop=C18 tiers=quick,thorough overrides=formatFriendlyError unwind=400 unwind_ok=1 budget_s=2400 quick:P.maxEdits=2 thorough:P.maxEdits=3 bounds="lists of 1..maxEdits (2 quick, 3 thorough) attribute assignments, each in one of 13 spellings (computed '&name=expr' with plain and namespaced name, bare, ':' '=' with and without spaces, ASCII name, quoted name with space and digit, namespaced names, '*' and '*k' multipliers, parenthesised value) joined by one of 4 separators, values 1-2 symbolic decimal digits (with three edits only the first value may have two): the callback log equals the written list"
+//vh:prop=C18 tiers=quick,thorough overrides=formatFriendlyError unwind=400 unwind_ok=1 budget_s=2400 quick:P.maxEdits=2 thorough:P.maxEdits=3 bounds="lists of 1..maxEdits (2 quick, 3 thorough) attribute assignments, each in one of 17 spellings (computed '&name=expr' with plain and namespaced name, bare, ':' '=' with and without spaces, ASCII name, quoted name with space and digit, namespaced names, '*' and '*k' multipliers, parenthesised value) joined by one of 4 separators, values 1-2 symbolic decimal digits (with three edits only the first value may have two): the callback log equals the written list"
 func VH_C18_assign() {
 	vC18Run(vC18AssignForms, vParam("maxEdits", 2))
 }
@@ -211,7 +215,7 @@ func VH_C18_modify() {
 	vC18Run(vC18ModifyForms, vParam("maxEdits", 2))
 }
 
-//vh:prop=C18 tiers=quick,thorough overrides=formatFriendlyError unwind=400 unwind_ok=1 budget_s=2400 quick:P.maxEdits=4 thorough:P.maxEdits=6 bounds="long lists: 3..maxEdits (4 quick, 6 thorough) edits, assignments and modifications; the first spelling and the first separator are choices (13 / 7 spellings, 4 separators), later edits take the following spellings and separators in turn; values one symbolic digit: the callback log equals the written list"
+//vh:prop=C18 tiers=quick,thorough overrides=formatFriendlyError unwind=400 unwind_ok=1 budget_s=2400 quick:P.maxEdits=4 thorough:P.maxEdits=6 bounds="long lists: 3..maxEdits (4 quick, 6 thorough) edits, assignments and modifications; the first spelling and the first separator are choices (17 / 7 spellings, 4 separators), later edits take the following spellings and separators in turn; values one symbolic digit: the callback log equals the written list"
 func VH_C18_long() {
 	if vChoice("family", 2) == 0 {
 		vC18RunN(vC18AssignForms, 3, vParam("maxEdits", 4), true)
